@@ -244,7 +244,7 @@ func (e *verifC23BoxEnv) step(op int, val []byte) {
 // One operation from a parent state where the box is present or absent.
 //verif:harness prop=C23 reach=done,created,double-create-rejected,replaced,replace-rejected,deleted,missing-delete-rejected unwind=10 budget=200 thorough.budget=2400
 func VerifC23BoxStep() {
-	maxLen := vr.Param(2, 3)
+	maxLen := vr.Param(2, 4)
 	e := verifC23BoxSetup(maxLen, maxLen)
 	e.check()
 	op := vr.Choice("op", 3)
@@ -256,16 +256,17 @@ func VerifC23BoxStep() {
 	vr.Reach("done")
 }
 
-// Two operations in a row: the second one sees the first one's effect through
+// Two (thorough: three) operations in a row: a later one sees the earlier ones' effect through
 // the cow's own kv modifications (create then create, create then delete, delete
 // then create, delete then delete, ...).
 //verif:harness prop=C23 reach=done,created,double-create-rejected,replaced,replace-rejected,deleted,missing-delete-rejected unwind=10 budget=200 thorough.budget=2400
 func VerifC23BoxSequence() {
 	maxLen := vr.Param(1, 2)
 	e := verifC23BoxSetup(maxLen, maxLen)
-	names := [2]string{"value1", "value2"}
-	ops := [2]string{"op1", "op2"}
-	for k := 0; k < 2; k++ {
+	names := [3]string{"value1", "value2", "value3"}
+	ops := [3]string{"op1", "op2", "op3"}
+	nOps := vr.Param(2, 3)
+	for k := 0; k < nOps; k++ {
 		op := vr.Choice(ops[k], 3)
 		var val []byte
 		if op != verifC23Del {
